@@ -15,6 +15,7 @@ import Ptn.C05.ProjectedTreeTwo
 import Ptn.C05.WholeProgram
 import Ptn.C05.WholeProgramLink
 import Ptn.C05.WholeProgramTwo
+import Ptn.C05.SiteProjected
 /-! Property theorems for C05.  `Core.lean`: duration totals of the three schedules for arbitrary
 segment lists (per segment edge, under the hypotheses `Nodup` / last-two-adjacent).  `Tree.lean`:
 the same totals for every well-formed tree with the segments computed from the C17 model of the
@@ -640,6 +641,51 @@ example : (chCtx.plug (Tree.node 2 [])).ids.Nodup ∧
     intro z
     simp only [List.count_cons, List.count_nil]
     omega
+
+/-! ### `site_heff_eq_projected` (builder B48): the chain 0 — 1 — 2 with the node tensors above; the theorem is APPLIED —
+all its hypotheses hold — once for the leaf 2 (context of depth 2) and once for the inner node 1 (one ancestor, one
+child subtree); the dimensions are 2 on every leg.  The canonical `envKet`, `opAll`, `envBra` replace the split. -/
+
+example : ∃ m : Mat, getEffectiveSingleSiteHamiltonianNodes ⟨chCtx.parent, ([] : List Tree).map Tree.id⟩
+      ⟨chCtx.parent, chOpKids 2⟩ (gOpT 2 ⟨chCtx.parent, chOpKids 2⟩) (siteCache chCtx [] 2) = some m ∧
+    ∀ e : Expr Leg Int, Built m.toT e → e.leaves.Perm (wholeLeaves chOpKids chKv chOv chBv chCtx 2 []) →
+      ∀ σ, e.eval (fun _ => 2) σ =
+        sumPairs (fun _ => 2) ((chCtx.ids ++ Tree.idsL []).map physOut)
+          (fun τ => sumPairs (fun _ => 2) ((chCtx.ids ++ Tree.idsL []).map physIn)
+            (fun ρ => (envKet chKv chCtx 2 []).eval (fun _ => 2) ρ *
+              (opAll chOv chOpKids (chCtx.plug (Tree.node 2 []))).eval (fun _ => 2) ρ) τ *
+            (envBra chBv chCtx 2 []).eval (fun _ => 2) τ) σ := by
+  obtain ⟨_, _, _, _, _, _, _, _, _, _, m, hm, _, _, _, hall⟩ := site_heff_eq_projected chCtx 2 [] (by decide) chOpKids
+    (fun e he => by rcases chInfo e he with rfl | rfl | rfl <;> decide) chKv chOv chBv
+    (fun e he => by rcases chInfo e he with rfl | rfl | rfl <;> exact demoT_local _)
+    (fun e he => by rcases chInfo e he with rfl | rfl | rfl <;> exact demoT_local _)
+    (fun e he => by rcases chInfo e he with rfl | rfl | rfl <;> exact demoT_local _)
+  exact ⟨m, hm, fun e hbe hl σ => (hall e hbe hl).2.2.2 (fun _ => 2) (fun _ _ => rfl) σ⟩
+
+example : ∃ m : Mat, getEffectiveSingleSiteHamiltonianNodes
+      ⟨(Ctx.frame 0 [] [] Ctx.root).parent, [Tree.node 2 []].map Tree.id⟩
+      ⟨(Ctx.frame 0 [] [] Ctx.root).parent, chOpKids 1⟩ (gOpT 1 ⟨(Ctx.frame 0 [] [] Ctx.root).parent, chOpKids 1⟩)
+      (siteCache (Ctx.frame 0 [] [] Ctx.root) [Tree.node 2 []] 1) = some m ∧
+    ∀ e : Expr Leg Int, Built m.toT e →
+      e.leaves.Perm (wholeLeaves chOpKids chKv chOv chBv (Ctx.frame 0 [] [] Ctx.root) 1 [Tree.node 2 []]) →
+      ∀ σ, e.eval (fun _ => 2) σ =
+        sumPairs (fun _ => 2) (((Ctx.frame 0 [] [] Ctx.root).ids ++ Tree.idsL [Tree.node 2 []]).map physOut)
+          (fun τ => sumPairs (fun _ => 2)
+            (((Ctx.frame 0 [] [] Ctx.root).ids ++ Tree.idsL [Tree.node 2 []]).map physIn)
+            (fun ρ => (envKet chKv (Ctx.frame 0 [] [] Ctx.root) 1 [Tree.node 2 []]).eval (fun _ => 2) ρ *
+              (opAll chOv chOpKids ((Ctx.frame 0 [] [] Ctx.root).plug (Tree.node 1 [Tree.node 2 []]))).eval
+                (fun _ => 2) ρ) τ *
+            (envBra chBv (Ctx.frame 0 [] [] Ctx.root) 1 [Tree.node 2 []]).eval (fun _ => 2) τ) σ := by
+  have hI : ∀ e ∈ Tree.info none ((Ctx.frame 0 [] [] Ctx.root).plug (Tree.node 1 [Tree.node 2 []])),
+      e = (0, none, [1]) ∨ e = (1, some 0, [2]) ∨ e = (2, some 1, []) := fun e he => by
+    simpa [Ctx.plug, Tree.info, Tree.infoL, Tree.id] using he
+  obtain ⟨_, _, _, _, _, _, _, _, _, _, m, hm, _, _, _, hall⟩ := site_heff_eq_projected (Ctx.frame 0 [] [] Ctx.root) 1
+    [Tree.node 2 []] (by decide) chOpKids
+    (fun e he => by rcases hI e he with rfl | rfl | rfl <;> decide) chKv chOv chBv
+    (fun e he => by rcases hI e he with rfl | rfl | rfl <;> exact demoT_local _)
+    (fun e he => by rcases hI e he with rfl | rfl | rfl <;> exact demoT_local _)
+    (fun e he => by rcases hI e he with rfl | rfl | rfl <;> exact demoT_local _)
+  exact ⟨m, hm, fun e hbe hl σ => (hall e hbe hl).2.2.2 (fun _ => 2) (fun _ _ => rfl) σ⟩
 
 /-! ### `link_heff_whole_program` (builder B47): the chain 0 — 1 — 2, link on the LOWER edge 1 — 2; node tensors, cache and
 the split `lk2E`, `chH`, `lk2B` as above — the leaves of the split are exactly `linkLeaves` (ALL node tensors) -/
